@@ -15,15 +15,15 @@ const char *MUTS[] = {"Hputelement-new", "Hputelement-existing", "Hstartwrite", 
                       "VHstoredata", "SDcreate", "SDwritedata", "SDsetattr-file", "SDsetattr-sds", "SDsetdatastrs", "SDsetdimname",
                       "SDsetdimscale", "SDsetfillvalue", "SDsetcompress", "SDsetchunk", "SDsetexternalfile", "SDsetrange", "SDsetcal",
                       "GRcreate", "GRwriteimage", "GRsetattr-file", "GRsetattr-image", "GRwritelut", "GRsetcompress", "ANcreatef", "ANcreate",
-                      "ANwriteann", "Vsetclass-on-r", "VSsetname-on-r", "Hsync", "Hcache", "Vattach-w-while-r", "VSattach-w-while-r"};
+                      "ANwriteann", "Vsetclass-on-r", "VSsetname-on-r", "Hsync", "Hcache", "Vattach-w-while-r", "VSattach-w-while-r",
+                      // appended later (indices of stored plans stay valid)
+                      "VSsetclass-on-r", "VSfdefine-on-r", "VSsetinterlace-on-r", "VSsetexternalfile-on-r", "Vdeletetagref-on-r",
+                      "Vinsert-on-r", "SDsetdimstrs", "SDsetnbitdataset", "SDsetdimval_comp", "GRsetexternalfile", "GRsetchunk"};
 const int   NMUT   = sizeof MUTS / sizeof MUTS[0];
 
-// Known findings (known_findings.txt, one stored replay each): mutators that a read-only handle ACCEPTS.  None of them
-// reaches the disk -- the monitor saw no write -- but they report success.  They are kept out of the search so that
-// runs are not cut short; a plan with knob unguard_ro_api=1 executes them.
-const char *GUARDED[] = {"GRsetattr-file", "GRsetattr-image", "SDcreate", "SDsetattr-file", "SDsetattr-sds", "SDsetcal", "SDsetdatastrs",
-                         "SDsetdimname", "SDsetdimscale", "SDsetfillvalue", "SDsetrange", "VSattach-new", "VSsetname-on-r",
-                         "Vaddtagref-on-r", "GRsetcompress", "GRwritelut", nullptr};
+// Mutators kept out of the search unless knob unguard_ro_api=1 is set.  Empty: the sixteen mutators that read-only
+// handles used to accept (in memory only) were repaired in the library; their replays are under findings/fixed.
+const char *GUARDED[] = {nullptr};
 
 struct ReadOnly : Profile {
     const char *name() const override { return "readonly"; }
@@ -41,7 +41,14 @@ struct ReadOnly : Profile {
         return {"'would have to write data or create a stored object' is read as: every call of the mutator table in prof_readonly.cc",
                 "calls that only change handle-local state (Hsync/Hcache on a read-only file) may succeed; they are checked by the disk monitor only"};
     }
-    std::vector<std::string> required_probes() const override { return {"mutator-refused", "phase-c", "external-present", "read-in-phase-b"}; }
+    std::vector<std::string> required_probes() const override
+    {
+        std::vector<std::string> v = {"mutator-refused", "phase-c", "external-present", "read-in-phase-b"};
+        for (int i = 0; i < NMUT; i++)
+            if (strcmp(MUTS[i], "Hsync") && strcmp(MUTS[i], "Hcache")) // these two may succeed: there is nothing to flush
+                v.push_back(std::string("refused:") + MUTS[i]);
+        return v;
+    }
 
     Plan generate(Rng &rng, bool thorough, uint64_t) override
     {
@@ -125,6 +132,17 @@ struct ReadOnly : Profile {
             }
             else if (n == "SDsetfillvalue")
                 res = SDsetfillvalue(id, data) == FAIL;
+            else if (n == "SDsetdimstrs")
+                res = rank < 1 ? -1 : SDsetdimstrs(SDgetdimid(id, 0), "l", "u", NULL) == FAIL;
+            else if (n == "SDsetdimval_comp")
+{
+                // asking for the mode the dimension already has changes nothing and may succeed: the other mode is asked for
+                int32 dimid = rank < 1 ? FAIL : SDgetdimid(id, 0);
+                intn  cur   = dimid == FAIL ? FAIL : SDisdimval_bwcomp(dimid);
+                res = cur == FAIL ? -1 : SDsetdimval_comp(dimid, cur == SD_DIMVAL_BW_COMP ? SD_DIMVAL_BW_INCOMP : SD_DIMVAL_BW_COMP) == FAIL;
+            }
+            else if (n == "SDsetnbitdataset")
+                res = SDsetnbitdataset(id, 0, 3, 0, 0) == FAIL;
             else if (n == "SDsetrange")
                 res = SDsetrange(id, data, data + 8) == FAIL;
             else if (n == "SDsetcal")
@@ -181,6 +199,14 @@ struct ReadOnly : Profile {
                 std::vector<uint8_t> lut(768, 7);
                 int32                l = GRgetlutid(ri, 0);
                 res                    = l == FAIL ? -1 : GRwritelut(l, 3, DFNT_UINT8, MFGR_INTERLACE_PIXEL, 256, lut.data()) == FAIL;
+            }
+            else if (n == "GRsetexternalfile")
+                res = GRsetexternalfile(ri, "/sim/ro_grext.dat", 0) == FAIL;
+            else if (n == "GRsetchunk") {
+                HDF_CHUNK_DEF cd;
+                memset(&cd, 0, sizeof cd);
+                cd.chunk_lengths[0] = cd.chunk_lengths[1] = 1;
+                res = GRsetchunk(ri, cd, HDF_CHUNK) == FAIL;
             }
             else if (n == "GRsetcompress") {
                 comp_info ci;
@@ -263,6 +289,20 @@ struct ReadOnly : Profile {
             return VHstoredata(fid, "x", data, 2, DFNT_INT32, "ro_vs", "c") == FAIL;
         // the rest needs an existing object
         bool have_elem = Hexist(fid, tag, ref) != FAIL;
+        if (!have_elem) {
+            // the drawn name is not in the file: take one of the workload's elements (plain, linked, alias, external)
+            std::vector<std::pair<uint16, uint16>> all;
+            uint16 ft = 0, fr = 0;
+            int32  fo = 0, fl = 0;
+            while (Hfind(fid, DFTAG_WILDCARD, DFREF_WILDCARD, &ft, &fr, &fo, &fl, DF_FORWARD) != FAIL)
+                if (ft >= 8200 && ft < 8600)
+                    all.push_back({ft, fr});
+            if (!all.empty()) {
+                tag = all[(size_t)modn(a2, (int64_t)all.size())].first;
+                ref = all[(size_t)modn(a2, (int64_t)all.size())].second;
+                have_elem = true;
+            }
+        }
         if (n == "Hputelement-existing")
             return have_elem ? Hputelement(fid, tag, ref, data, 1) == FAIL : -1;
         if (n == "Hstartaccess-write") {
@@ -290,7 +330,8 @@ struct ReadOnly : Profile {
             return res;
         }
         int32 vsref = VSfind(fid, strf("vd%d", modn(a1, 6)).c_str()), vgref = Vfind(fid, strf("vg%d", modn(a1, 6)).c_str());
-        if (n == "VSattach-w" || n == "VSwrite-on-r" || n == "VSsetattr-on-r" || n == "VSdelete" || n == "VSsetname-on-r") {
+        if (n == "VSattach-w" || n == "VSwrite-on-r" || n == "VSsetattr-on-r" || n == "VSdelete" || n == "VSsetname-on-r" || n == "VSsetclass-on-r" ||
+            n == "VSfdefine-on-r" || n == "VSsetinterlace-on-r" || n == "VSsetexternalfile-on-r") {
             if (vsref <= 0)
                 return -1;
             if (n == "VSdelete")
@@ -315,6 +356,14 @@ struct ReadOnly : Profile {
             }
             else if (n == "VSsetattr-on-r")
                 res = VSsetattr(vs, _HDF_VDATA, "ro_attr", DFNT_UINT8, 4, data) == FAIL;
+            else if (n == "VSsetclass-on-r")
+                res = VSsetclass(vs, "ro_class") == FAIL;
+            else if (n == "VSfdefine-on-r")
+                res = VSfdefine(vs, "ro_field", DFNT_INT32, 1) == FAIL;
+            else if (n == "VSsetinterlace-on-r")
+                res = VSsetinterlace(vs, NO_INTERLACE) == FAIL;
+            else if (n == "VSsetexternalfile-on-r")
+                res = VSsetexternalfile(vs, "/sim/ro_vsext.dat", 0) == FAIL;
             else
                 res = VSsetname(vs, "ro_renamed") == FAIL;
             VSdetach(vs);
@@ -365,6 +414,18 @@ struct ReadOnly : Profile {
             res = Vsetclass(vg, "ro_class") == FAIL;
         else if (n == "Vsetattr-on-r")
             res = Vsetattr(vg, "ro_attr", DFNT_UINT8, 4, data) == FAIL;
+        else if (n == "Vdeletetagref-on-r") {
+            int32 mt = 0, mr = 0;
+            res = Vgettagref(vg, 0, &mt, &mr) == FAIL ? -1 : Vdeletetagref(vg, mt, mr) == FAIL;
+        }
+        else if (n == "Vinsert-on-r") {
+            int32 other = Vfind(fid, strf("vg%d", modn(a2, 6)).c_str());
+            int32 og    = other > 0 && other != vgref ? Vattach(fid, other, "r") : FAIL;
+            if (og != FAIL) {
+                res = Vinsert(vg, og) == FAIL;
+                Vdetach(og);
+            }
+        }
         Vdetach(vg);
         return res;
     }
@@ -514,6 +575,7 @@ struct ReadOnly : Profile {
                 if (r == 1) {
                     refused++;
                     ctx.probe("mutator-refused");
+                    ctx.probe((std::string("refused:") + MUTS[api]).c_str());
                 }
                 ctx.st.checks++;
                 continue;
